@@ -23,6 +23,7 @@ namespace BreezyVerif.C34
 inductive Codec where
   | utf8 | latin1 | ascii
   | se            -- utf-8 with surrogateescape (total, bijective)
+  | ext (name : Bytes)   -- any other codec of Python's registry, by the name it was looked up with
   deriving DecidableEq, Repr
 
 structure PStr where
@@ -32,15 +33,6 @@ structure PStr where
 
 /-- an ASCII literal as bytes -/
 def bs (s : String) : Bytes := s.toList.map fun c => c.toNat.toUInt8
-
-/-- codec lookup for an `encoding` header (the aliases the generator uses);
-`none` = `LookupError` -/
-def resolve (name : Bytes) : Option Codec :=
-  if name = bs "utf-8" ∨ name = bs "UTF-8" ∨ name = bs "utf8" then some .utf8
-  else if name = bs "latin1" ∨ name = bs "latin-1" ∨ name = bs "iso-8859-1" ∨ name = bs "ISO-8859-1"
-    then some .latin1
-  else if name = bs "ascii" ∨ name = bs "us-ascii" then some .ascii
-  else none
 
 def validUtf8 (b : Bytes) : Bool := (String.fromUTF8? (ByteArray.mk b.toArray)).isSome
 
@@ -52,17 +44,66 @@ def decodable : Codec → Bytes → Bool
   | .latin1, _ => true
   | .ascii, b => isAscii b
   | .se, _ => true
+  | .ext _, _ => false     -- environment codecs are decoded by `decodeName` only
 
 inductive Err where
   | unicodeDecode | unknownEncoding | unknownHgExtra | unknownExtra | value
   | lookup | codecMismatch | index | attr | assert
+  | unicodeEncode | other     -- raised by a codec of the environment
+  | irreversible              -- variant `fx`: strict import refuses text the codec does not reproduce
+  | envMiss                   -- the driver's finite codec table has no entry (never a default)
   deriving DecidableEq, Repr
+
+/-- what Python's codec registry answers for an encoding name (`codecs.lookup`):
+one of the three codecs whose behaviour is modelled here, some other text codec
+(behaviour given by the environment), no such text codec (`LookupError`), or a
+name the C API refuses (`ValueError: embedded null character`) -/
+inductive Lookup where
+  | utf8 | latin1 | ascii | ext | unknown | bad
+  | miss          -- driver only: name not in the finite table
+  deriving DecidableEq, Repr
+
+/-- **The codec environment**: Python's codec registry and the behaviour of every
+codec other than utf-8 / latin-1 / ascii.  The model and every theorem are
+parametric in it — nothing is assumed about which names exist, what they alias,
+or what the codecs do.  A `str` produced by an environment codec is represented
+by its UTF-8 (surrogatepass) bytes, which is ASCII-transparent, so the ASCII-only
+string operations of the code stay byte operations. -/
+structure Env where
+  lookup : Bytes → Lookup
+  /-- `raw.decode(name)` for non-empty `raw`: the str (as UTF-8 bytes) or the exception -/
+  dec : Bytes → Bytes → Except Err Bytes
+  /-- `str.encode(name)` -/
+  enc : Bytes → Bytes → Except Err Bytes
 
 def decode (k : Codec) (b : Bytes) : Except Err PStr :=
   if decodable k b then .ok ⟨k, b⟩ else .error .unicodeDecode
 
 def encode (k : Codec) (s : PStr) : Except Err Bytes :=
   if s.codec = k then .ok s.bytes else .error .codecMismatch
+
+/-- `b.decode(name)`.  CPython returns `""` for empty input without looking the
+codec up (but after rejecting a name with an embedded NUL). -/
+def decodeName (env : Env) (name b : Bytes) : Except Err PStr :=
+  match env.lookup name with
+  | .bad => .error .value
+  | .miss => .error .envMiss
+  | .utf8 => decode .utf8 b
+  | .latin1 => decode .latin1 b
+  | .ascii => decode .ascii b
+  | .ext => if b = [] then .ok ⟨.ext name, []⟩ else (env.dec name b).map fun r => ⟨.ext name, r⟩
+  | .unknown => if b = [] then .ok ⟨.ext name, []⟩ else .error .lookup
+
+/-- `s.encode(name)` (always looks the codec up) -/
+def encodeName (env : Env) (name : Bytes) (s : PStr) : Except Err Bytes :=
+  match env.lookup name with
+  | .bad => .error .value
+  | .miss => .error .envMiss
+  | .unknown => .error .lookup
+  | .utf8 => encode .utf8 s
+  | .latin1 => encode .latin1 s
+  | .ascii => encode .ascii s
+  | .ext => if s.codec = .ext name then env.enc name s.bytes else .error .codecMismatch
 
 /-- a dulwich `Commit`, field by field -/
 structure Commit where
@@ -115,18 +156,27 @@ def foreignToBzr (sha : Bytes) : Bytes := revidPrefix ++ sha
 
 /-! ### import -/
 
+/-- a `LookupError` from decoding committer / author is re-raised as `UnknownCommitEncoding` -/
+def lookupToUnknown : Err → Err
+  | .lookup => .unknownEncoding
+  | e => e
+
 /-- `decode_using_encoding`: committer, author (only if different), message —
-in that order; any failure is a `UnicodeDecodeError` -/
-def decodeUsing (k : Codec) (c : Commit) : Except Err (PStr × Option PStr × Option PStr) :=
-  if !decodable k c.committer then .error .unicodeDecode
-  else if c.committer ≠ c.author ∧ !decodable k c.author then .error .unicodeDecode
-  else
-    let author : Option PStr := if c.committer ≠ c.author then some ⟨k, c.author⟩ else none
-    match c.message with
-    | none => .ok (⟨k, c.committer⟩, author, none)
-    | some m =>
-      if !decodable k m then .error .unicodeDecode
-      else .ok (⟨k, c.committer⟩, author, some ⟨k, m⟩)
+in that order.  The message is decoded by `_decode_commit_message`, where a
+`LookupError` is NOT converted. -/
+def decodeUsing (env : Env) (name : Bytes) (c : Commit) : Except Err (PStr × Option PStr × Option PStr) :=
+  match decodeName env name c.committer with
+  | .error e => .error (lookupToUnknown e)
+  | .ok cm =>
+    match (if c.committer ≠ c.author then (decodeName env name c.author).map some else .ok none) with
+    | .error e => .error (lookupToUnknown e)
+    | .ok au =>
+      match c.message with
+      | none => .ok (cm, au, none)
+      | some m =>
+        match decodeName env name m with
+        | .error e => .error e
+        | .ok s => .ok (cm, au, some s)
 
 def hgExtraKeys : List Bytes :=
   [bs "amend_source", bs "rebase_source", bs "absorb_source", bs "intermediate-source",
@@ -156,26 +206,55 @@ def importExtra (strict : Bool) : List (Bytes × Bytes) → Except Err (List Byt
       let (ls, un) ← importExtra strict rest
       pure (ls, k :: un)
 
-/-- the utf-8 → latin1 fallback of `import_commit` (no or `false` encoding header) -/
-def decodeFallback (c : Commit) :
+/-- the utf-8 → latin1 fallback of `import_commit` (no or `false` encoding header):
+only `UnicodeDecodeError` moves on to the next codec.  (If latin1 failed as well the
+real loop would fall through with stale variables; that needs a registry in which
+`latin1` is not latin-1 and is reported as the error here.) -/
+def decodeFallback (env : Env) (c : Commit) :
     Except Err ((PStr × Option PStr × Option PStr) × Option Bytes) :=
-  match decodeUsing .utf8 c with
+  match decodeUsing env (bs "utf-8") c with
   | .ok d => .ok (d, none)
-  | .error _ => (decodeUsing .latin1 c).map fun d => (d, some (bs "latin1"))
+  | .error .unicodeDecode => (decodeUsing env (bs "latin1") c).map fun d => (d, some (bs "latin1"))
+  | .error e => .error e
+
+instance {ε α} [DecidableEq ε] [DecidableEq α] : DecidableEq (Except ε α) := fun a b =>
+  match a, b with
+  | .ok x, .ok y => if h : x = y then isTrue (by rw [h]) else isFalse (by intro e; cases e; exact h rfl)
+  | .error x, .error y => if h : x = y then isTrue (by rw [h]) else isFalse (by intro e; cases e; exact h rfl)
+  | .ok _, .error _ => isFalse (by intro e; cases e)
+  | .error _, .ok _ => isFalse (by intro e; cases e)
+
+
+
+/-- `text.decode(name).encode(name) == text` (a decode error cannot happen where this is used) -/
+def reenc (env : Env) (name b : Bytes) : Bool :=
+  match decodeName env name b with
+  | .ok s => decide (encodeName env name s = .ok b)
+  | .error _ => true
+
+/-- the three text fields survive decode + encode with the header's codec -/
+def reencodes (env : Env) (name : Bytes) (c : Commit) : Bool :=
+  reenc env name c.committer && reenc env name c.author &&
+    (match c.message with
+     | some m => reenc env name m
+     | none => true)
 
 /-- the decoding part of `import_commit`: decoded (committer, author, message)
-and the `git-implicit-encoding` value -/
-def importDecode (c : Commit) :
+and the `git-implicit-encoding` value.  `fx` selects the code variant (probed on
+the real code on every run): `false` = /repo as it is, `true` = with the proposed
+fix, where a strict import refuses a header codec that does not reproduce the
+commit's text. -/
+def importDecode (env : Env) (fx strict : Bool) (c : Commit) :
     Except Err ((PStr × Option PStr × Option PStr) × Option Bytes) :=
   match c.encoding with
   | some e =>
     if !isAscii e then .error .unicodeDecode          -- commit.encoding.decode("ascii")
     else if e ≠ bs "false" then
-      match resolve e with
-      | none => .error .unknownEncoding
-      | some k => (decodeUsing k c).map fun d => (d, none)
-    else decodeFallback c
-  | none => decodeFallback c
+      match decodeUsing env e c with
+      | .error x => .error x
+      | .ok d => if fx && strict && !reencodes env e c then .error .irreversible else .ok (d, none)
+    else decodeFallback env c
+  | none => decodeFallback env c
 
 /-- `if commit.gpgsig: properties["git-gpg-signature"] = …` -/
 def importGpgsig : Option Bytes → Option PStr
@@ -202,8 +281,8 @@ def importProps (c : Commit) (implicit : Option Bytes) (author message : Option 
     missingMessage := message.isNone }
 
 /-- `import_commit(commit, revision_id_foreign_to_bzr, strict)`; `id` is `commit.id` -/
-def importCommit (strict : Bool) (id : Bytes) (c : Commit) : Except Err Rev :=
-  match importDecode c with
+def importCommit (env : Env) (fx strict : Bool) (id : Bytes) (c : Commit) : Except Err Rev :=
+  match importDecode env fx strict c with
   | .error e => .error e
   | .ok ((committer, author, message), implicit) =>
     match importExtra strict c.extra with
@@ -323,20 +402,20 @@ def encName (explicit implicit : Option Bytes) : Bytes :=
   if e0 = bs "false" then implOr implicit else e0
 
 /-- `fix_person_identifier(s.encode(encoding))` -/
-def exportIdent (k : Codec) (s : PStr) : Except Err Bytes :=
-  match encode k s with
+def exportIdent (env : Env) (name : Bytes) (s : PStr) : Except Err Bytes :=
+  match encodeName env name s with
   | .error e => .error e
   | .ok b => match fixPerson b with
     | some x => .ok x
     | none => .error .value
 
 /-- `rev.get_apparent_authors()[0]`, the comma hack, then `exportIdent` -/
-def exportAuthor (k : Codec) (rev : Rev) : Except Err Bytes :=
+def exportAuthor (env : Env) (name : Bytes) (rev : Rev) : Except Err Bytes :=
   let a : PStr := match rev.props.author with
     | some a => a
     | none => rev.committer
   if a.bytes = [] then .error .index
-  else exportIdent k ⟨a.codec, firstAuthor a.bytes⟩
+  else exportIdent env name ⟨a.codec, firstAuthor a.bytes⟩
 
 def exportGpgsig : Option PStr → Except Err (Option Bytes)
   | some g => (encode .se g).map some
@@ -350,46 +429,72 @@ def exportGitExtra : Option PStr → Except Err (List (Bytes × Bytes))
 
 /-- `export_commit(rev, tree_sha, parent_lookup, lossy=True, verifiers=None)`;
 errors in the order the code raises them -/
-def exportCommit (rev : Rev) (tree : Bytes) : Except Err Commit :=
+def exportCommit (env : Env) (rev : Rev) (tree : Bytes) : Except Err Commit :=
   match exportParents rev.parents with
   | .error e => .error e
   | .ok parents =>
-    match resolve (encName rev.props.explicitEncoding rev.props.implicitEncoding) with
-    | none => .error .lookup
-    | some k =>
-      match exportIdent k rev.committer, exportAuthor k rev, exportGpgsig rev.props.gpgsig with
-      | .error e, _, _ => .error e
-      | _, .error e, _ => .error e
-      | _, _, .error e => .error e
-      | .ok committer, .ok author, .ok gpgsig =>
-        -- `commit.message != ""` on a fresh dulwich Commit raises AttributeError
-        if rev.props.missingMessage then .error .attr
-        else
-          match encode k rev.message, rev.props.mergetags.mapM (encode .se),
-              exportGitExtra rev.props.gitExtra with
-          | .error e, _, _ => .error e
-          | _, .error e, _ => .error e
-          | _, _, .error e => .error e
-          | .ok message, .ok mergetags, .ok extra =>
-            .ok
-              { tree := tree
-                parents := parents
-                author := author
-                authorTime := match rev.props.authorTimestamp with
-                  | some t => t
-                  | none => rev.timestamp
-                authorTz := match rev.props.authorTimezone with
-                  | some t => t
-                  | none => rev.timezone
-                authorNegUtc := rev.props.authorNegUtc
-                committer := committer
-                commitTime := rev.timestamp
-                commitTz := rev.timezone
-                commitNegUtc := rev.props.commitNegUtc
-                encoding := rev.props.explicitEncoding
-                mergetags := mergetags
-                extra := extra
-                gpgsig := gpgsig
-                message := some message }
+    let name := encName rev.props.explicitEncoding rev.props.implicitEncoding
+    match exportIdent env name rev.committer, exportAuthor env name rev, exportGpgsig rev.props.gpgsig with
+    | .error e, _, _ => .error e
+    | _, .error e, _ => .error e
+    | _, _, .error e => .error e
+    | .ok committer, .ok author, .ok gpgsig =>
+      -- `commit.message != ""` on a fresh dulwich Commit raises AttributeError
+      if rev.props.missingMessage then .error .attr
+      else
+        match encodeName env name rev.message, rev.props.mergetags.mapM (encode .se),
+            exportGitExtra rev.props.gitExtra with
+        | .error e, _, _ => .error e
+        | _, .error e, _ => .error e
+        | _, _, .error e => .error e
+        | .ok message, .ok mergetags, .ok extra =>
+          .ok
+            { tree := tree
+              parents := parents
+              author := author
+              authorTime := match rev.props.authorTimestamp with
+                | some t => t
+                | none => rev.timestamp
+              authorTz := match rev.props.authorTimezone with
+                | some t => t
+                | none => rev.timezone
+              authorNegUtc := rev.props.authorNegUtc
+              committer := committer
+              commitTime := rev.timestamp
+              commitTz := rev.timezone
+              commitNegUtc := rev.props.commitNegUtc
+              encoding := rev.props.explicitEncoding
+              mergetags := mergetags
+              extra := extra
+              gpgsig := gpgsig
+              message := some message }
+
+/-! ### get_revision_id -/
+
+/-- the encoding name `get_revision_id` decodes the message with -/
+def revidEncName (c : Commit) : Except Err Bytes :=
+  match c.encoding with
+  | some e =>
+    if e ≠ [] ∧ e ≠ bs "false" then
+      (if isAscii e then .ok e else .error .unicodeDecode)   -- commit.encoding.decode("ascii")
+    else .ok (bs "utf-8")
+  | none => .ok (bs "utf-8")
+
+/-- `except UnicodeDecodeError: pass`; any other exception propagates -/
+def revidOfDecode (id : Bytes) : Except Err PStr → Except Err Bytes
+  | .ok _ => .ok (foreignToBzr id)
+  | .error .unicodeDecode => .ok (foreignToBzr id)
+  | .error e => .error e
+
+/-- `BzrGitMapping.get_revision_id(commit)` for the v1 mapping (whose
+`_decode_commit_message` returns an empty `CommitSupplement`, so the id always
+comes from the sha): the exceptions it can raise on the way are the point. -/
+def getRevisionId (env : Env) (id : Bytes) (c : Commit) : Except Err Bytes :=
+  match revidEncName c with
+  | .error e => .error e
+  | .ok name =>
+    match c.message with
+    | none => .ok (foreignToBzr id)
+    | some m => revidOfDecode id (decodeName env name m)
 
 end BreezyVerif.C34
